@@ -3,7 +3,7 @@
 #  oracle: (n quick, n thorough) - direct property oracle on the implementation (implrun oracle <id>)
 PROPS = {
     "C15": {
-        "suites": [("vb", 3000, 200000)],
+        "suites": [("vb", 3000, 200000), ("wire", 3000, 60000)],
         "oracle": (200000, 0),   # thorough: 0 = all 2^28 values
         "rule": "vbint values stratified over the four length classes and all boundaries +-2; all byte "
                 "strings of length <= 2 and sampled 3..5 byte continuation prefixes, for both decoders; "
